@@ -28,6 +28,20 @@ DATES = ["2004-07-08 23:56:58", "2003", "20031231", "2003-335", "Thu, 01 Jan 200
          "Κυρ, 11 Ιούλ 2004 12:00:00 EST", "2004-07-13 14:15 +0200", "July 08, 2004"]
 
 
+# the same style string (with SVG-only properties) on an HTML element INSIDE inline SVG and on one in plain XHTML: two documents, both orders -- the verdict on a style
+# belongs to the context it occurs in, not to the process
+STYLE_IN = ('<feed xmlns="http://www.w3.org/2005/Atom"><title>style in svg</title><entry><title>e</title><id>i</id><content type="xhtml"><div xmlns="http://www.w3.org/1999/xhtml">'
+            '<svg xmlns="http://www.w3.org/2000/svg"><foreignObject><p style="fill: red; stroke: blue; color: green">in</p></foreignObject></svg></div></content></entry></feed>')
+STYLE_OUT = ('<feed xmlns="http://www.w3.org/2005/Atom"><title>style outside</title><entry><title>e</title><id>i</id><content type="xhtml"><div xmlns="http://www.w3.org/1999/xhtml">'
+             '<p style="fill: red; stroke: blue; color: green">out</p></div></content></entry></feed>')
+# GML geometries whose srsName names an EPSG code (the axis-order decision consults a table of codes): first use of that path, alone and concurrently
+GEO_A = ('<feed xmlns="http://www.w3.org/2005/Atom" xmlns:georss="http://www.georss.org/georss" xmlns:gml="http://www.opengis.net/gml"><title>geo a</title><entry><title>e</title><id>i</id>'
+         '<georss:where><gml:Point srsName="EPSG:4326"><gml:pos>45.256 -71.92</gml:pos></gml:Point></georss:where></entry></feed>')
+GEO_B = ('<feed xmlns="http://www.w3.org/2005/Atom" xmlns:georss="http://www.georss.org/georss" xmlns:gml="http://www.opengis.net/gml"><title>geo b</title><entry><title>e</title><id>i</id>'
+         '<georss:where><gml:LineString srsName="urn:ogc:def:crs:EPSG::4269"><gml:posList>45.256 -71.92 46.46 -109.48</gml:posList></gml:LineString></georss:where></entry>'
+         '<entry><title>f</title><id>j</id><georss:where><gml:Point srsName="EPSG:4326"><gml:pos>1.5 2.5</gml:pos></gml:Point></georss:where></entry></feed>')
+
+
 def date_doc(rng, dates=None):
     ds = dates or [rng.choice(DATES) for _ in range(rng.randint(1, 4))]
     items = "".join("<item><title>i%d</title><pubDate>%s</pubDate><dc:date>%s</dc:date></item>" % (i, feedgen.esc(d), feedgen.esc(rng.choice(ds))) for i, d in enumerate(ds))
@@ -108,8 +122,10 @@ def search(ctx, focus=None):
     triggers = ['<rss version="2.0" %s><channel><title>t</title><itunes:keywords xml:lang="en">a, b</itunes:keywords><item><dcterms:valid scheme="W3C-DTF">start=2004</dcterms:valid>'
                 '<media:keywords lang="en">q</media:keywords></item></channel></rss>' % ns,
                 '<rss version="2.0" %s><channel><title>t</title></content><item></newlocation><tags x="1">a b</tags></item></channel></rss>' % ns]
-    docs += [victim] + triggers
-    base.update(zip([victim] + triggers, pool.map(lambda d: job({"mode": "sequence", "docs": [H(d)]})[0], [victim] + triggers)))
+    extra = [STYLE_IN, STYLE_OUT, GEO_A, GEO_B]
+    docs += [victim] + triggers + extra
+    base.update(zip([victim] + triggers + extra, pool.map(lambda d: job({"mode": "sequence", "docs": [H(d)]})[0], [victim] + triggers + extra)))
+    hist += [[STYLE_IN, STYLE_OUT], [STYLE_OUT, STYLE_IN], [STYLE_IN, STYLE_OUT, STYLE_IN], [GEO_A, GEO_B], [GEO_B, GEO_A]]
     for t in triggers:
         hist.append([victim, t, victim])
         hist.append([t, victim])
@@ -128,7 +144,7 @@ def search(ctx, focus=None):
                 break
     # (b) two threads, cold start: every first-use-only line of A as the preemption point + sampled others
     cold_jobs = []
-    for a in [SVG, docs[1], docs[2]] + ([rng.choice(docs)] if ctx.thorough else []):
+    for a in [SVG, docs[1], docs[2], GEO_A] + ([rng.choice(docs)] if ctx.thorough else []):
         info = job({"mode": "coldlines", "doc": H(a)})
         points = list(info["cold"][: ctx.n(40, 400)])
         nlines = info["n"]
@@ -136,7 +152,7 @@ def search(ctx, focus=None):
         for idx, k in enumerate(points):
             # the other thread: the same document, the document whose dates only the LATER alternatives of a handler accept (a partially
             # initialised table answers those wrongly), or any document -- in turn, so that every first-use-only line meets each kind
-            b = (a, docs[2], rng.choice(docs))[idx % 3]
+            b = (a, docs[2], rng.choice(docs))[idx % 3] if a is not GEO_A else (GEO_B, GEO_A, GEO_B)[idx % 3]
             cold_jobs.append({"a": a, "b": b, "segments": [k]})
         for _ in range(ctx.n(3, 40)):          # multi-preemption samples
             segs = [rng.randint(1, max(2, nlines // 3)) for _ in range(rng.randint(2, 6))]
